@@ -145,6 +145,17 @@ func c20Gen(t *rapid.T) (hostile, twin c20Req, desc string, rawValue string) {
 		if rapid.IntRange(0, 9).Draw(t, "nonString") == 0 {
 			alt := rapid.SampledFrom([]any{1, 1.5, true, nil, []any{"a"}, map[string]any{"a": "b"}}).Draw(t, "alt")
 			hv, bv = alt, alt
+			if rapid.Bool().Draw(t, "hostileInside") {
+				// the hostile text sits inside a value that is not a string: a list, a nested list, an object
+				switch rapid.IntRange(0, 2).Draw(t, "insideShape") {
+				case 0:
+					hv, bv = []any{val}, []any{"x"}
+				case 1:
+					hv, bv = []any{[]any{val}, 1}, []any{[]any{"x"}, 1}
+				default:
+					hv, bv = map[string]any{"a": val}, map[string]any{"a": "x"}
+				}
+			}
 		}
 		if rapid.IntRange(0, 3).Draw(t, "keyVariant") == 0 {
 			// the filter key is client text as well: another spelling of an accepted key (letter case, letters that
